@@ -1,5 +1,6 @@
 import PkgModel.Specifier
 import PkgProofs.Lemmas.Dec
+import PkgProofs.Lemmas.ScanBasic
 /-!
 # `_version_split` of a rendered version, and `_pad_version` on such token lists
 
@@ -57,10 +58,10 @@ theorem rpartition_last (sep : Nat) (a b : Str) (hb : sep ∉ b) :
     simpa using fun e : x = sep => hb (e ▸ this)
   have hrev : (a ++ sep :: b).reverse = b.reverse ++ sep :: a.reverse := by simp
   have ht : (b.reverse ++ sep :: a.reverse).takeWhile (· != sep) = b.reverse := by
-    rw [List.takeWhile_append_of_pos hall]; simp [List.takeWhile_cons]
+    rw [List.takeWhile_append_of_pos hall]; simp
   simp only [rpartition, hrev, ht]
   have hlen : (b.reverse.length == (b.reverse ++ sep :: a.reverse).length) = false := by
-    simp; omega
+    simp
   rw [hlen]
   simp only [Bool.false_eq_true, if_false, List.reverse_reverse]
   have : List.drop (b.reverse.length + 1) (b.reverse ++ sep :: a.reverse) = a.reverse := by
@@ -75,20 +76,6 @@ theorem digits_notin (s : Str) (h : ∀ c ∈ s, isDigit c = true) (x : Nat) (hx
 theorem dec_notin (n x : Nat) (hx : isDigit x = false) : x ∉ dec n := digits_notin _ (dec_digits n) x hx
 
 theorem dec_zero : dec 0 = [48] := by decide
-
-theorem dec_head (n : Nat) : ∃ d ds, dec n = d :: ds ∧ isDigit d = true := by
-  cases h : dec n with
-  | nil => exact absurd h (dec_ne_nil n)
-  | cons d ds => exact ⟨d, ds, rfl, dec_digits n d (by simp [h])⟩
-
-theorem dec_getLast (pre : Str) (n : Nat) : ∃ d, (pre ++ dec n).getLast? = some d ∧ isDigit d = true := by
-  rw [List.getLast?_append]
-  cases h : (dec n).getLast? with
-  | none => simp [dec_ne_nil] at h
-  | some d =>
-    refine ⟨d, by simp, ?_⟩
-    obtain ⟨ys, hys⟩ := List.getLast?_eq_some_iff.mp h
-    exact dec_digits n d (by simp [hys])
 
 theorem isDigitStr_dec (n : Nat) : isDigitStr (dec n) = true := by
   have h1 : (dec n).isEmpty = false := by cases h : dec n <;> simp_all [dec_ne_nil]
@@ -125,47 +112,67 @@ theorem versionSplit_eq (s : Str) :
   simp only [versionSplit, itemToks]
   rfl
 
-theorem dropNewline (pre : Str) (n : Nat) :
-    (if (pre ++ dec n).getLast? = some 10 then (pre ++ dec n).dropLast else pre ++ dec n) = pre ++ dec n := by
-  obtain ⟨d, hd, hdig⟩ := dec_getLast pre n
-  rw [hd]
-  have : d ≠ 10 := by intro e; subst e; simp [isDigit] at hdig
-  simp [this]
 
-theorem itemToks_dec (n : Nat) : itemToks (dec n) = [dec n] := by
-  have h0 := dropNewline [] n
-  simp only [List.nil_append] at h0
-  have hs : spanDigits (dec n) = (dec n, []) := by
-    have := spanDigits_dec n [] (by simp)
-    simpa using this
-  have hne : (dec n).isEmpty = false := by cases h : dec n <;> simp_all [dec_ne_nil]
-  simp [itemToks, prefixRegex, h0, hs, hne]
+theorem pr_unfold (item : Str) (hl : (item.getLast? == some 10) = false) :
+    prefixRegex item =
+      (if (spanDigits item).1.isEmpty then none else
+        match (match (spanDigits item).2 with
+          | 97 :: t => some ([97], t)
+          | 98 :: t => some ([98], t)
+          | 99 :: t => some ([99], t)
+          | 114 :: 99 :: t => some ([114, 99], t)
+          | _ => (none : Option (Str × Str))) with
+        | none => none
+        | some (l, t) =>
+          if (spanDigits t).1.isEmpty || !(spanDigits t).2.isEmpty then none
+          else some ((spanDigits item).1, l ++ (spanDigits t).1)) := by
+  unfold prefixRegex
+  simp only [hl, Bool.false_eq_true, if_false]
+  rfl
 
-theorem preStr_head (l : PreL) (t : Str) : ∀ c, (l.str ++ t).head? = some c → isDigit c = false := by
-  intro c hc; cases l <;> simp [PreL.str, ofString] at hc <;> subst hc <;> decide
+theorem last_dec (pre : Str) (n : Nat) : ((pre ++ dec n).getLast? == some 10) = false := by
+  rw [List.getLast?_append]
+  cases h : (dec n).getLast? with
+  | none => simp [dec_ne_nil] at h
+  | some d =>
+    obtain ⟨ys, hys⟩ := List.getLast?_eq_some_iff.mp h
+    have hd := dec_digits n d (by simp [hys])
+    have : d ≠ 10 := by intro e; subst e; simp [isDigit] at hd
+    simp [this]
+
+theorem spanDigits_dec_nil (n : Nat) : spanDigits (dec n) = (dec n, []) := by
+  have := spanDigits_dec n [] (by simp)
+  simpa using this
+
+theorem dec_isEmpty (n : Nat) : (dec n).isEmpty = false := by
+  cases h : dec n <;> simp_all [dec_ne_nil]
+
+theorem pr_dec (n : Nat) : prefixRegex (dec n) = none := by
+  have h := pr_unfold (dec n) (by simpa using last_dec [] n)
+  rw [h, spanDigits_dec_nil]; simp [dec_isEmpty]
+
+theorem pr_pre (a : Nat) (l : PreL) (n : Nat) :
+    prefixRegex (dec a ++ (l.str ++ dec n)) = some (dec a, l.str ++ dec n) := by
+  have hl : ((dec a ++ (l.str ++ dec n)).getLast? == some 10) = false := by
+    have := last_dec (dec a ++ l.str) n; simpa using this
+  have hs : spanDigits (dec a ++ (l.str ++ dec n)) = (dec a, l.str ++ dec n) :=
+    spanDigits_dec a _ (by intro c hc; cases l <;> simp [PreL.str, ofString] at hc <;> subst hc <;> decide)
+  rw [pr_unfold _ hl, hs]
+  cases l <;> simp [PreL.str, ofString, dec_isEmpty, spanDigits_dec_nil]
+
+theorem pr_nondigit (c : Nat) (t : Str) (n : Nat) (hc : isDigit c = false) :
+    prefixRegex (c :: t ++ dec n) = none := by
+  have hl := last_dec (c :: t) n
+  rw [pr_unfold _ hl]
+  simp [spanDigits, hc]
+
+theorem itemToks_dec (n : Nat) : itemToks (dec n) = [dec n] := by simp [itemToks, pr_dec]
 
 theorem itemToks_pre (a : Nat) (l : PreL) (n : Nat) :
-    itemToks (dec a ++ (l.str ++ dec n)) = [dec a, l.str ++ dec n] := by
-  have h0 := dropNewline (dec a ++ l.str) n
-  simp only [List.append_assoc] at h0
-  have hs : spanDigits (dec a ++ (l.str ++ dec n)) = (dec a, l.str ++ dec n) :=
-    spanDigits_dec a _ (preStr_head l _)
-  have hne : (dec a).isEmpty = false := by cases h : dec a <;> simp_all [dec_ne_nil]
-  have hs2 : spanDigits (dec n) = (dec n, []) := by
-    have := spanDigits_dec n [] (by simp)
-    simpa using this
-  have hne2 : (dec n).isEmpty = false := by cases h : dec n <;> simp_all [dec_ne_nil]
-  simp only [itemToks, prefixRegex, h0, hs, hne]
-  cases l <;> simp [PreL.str, ofString, hs2, hne2]
+    itemToks (dec a ++ (l.str ++ dec n)) = [dec a, l.str ++ dec n] := by simp [itemToks, pr_pre]
 
 theorem itemToks_nondigit_head (c : Nat) (t : Str) (n : Nat) (hc : isDigit c = false) :
-    itemToks (c :: t ++ dec n) = [c :: t ++ dec n] := by
-  have h0 := dropNewline (c :: t) n
-  have hs : (spanDigits (c :: (t ++ dec n))).1 = [] := by simp [spanDigits, hc]
-  simp only [itemToks, prefixRegex, h0]
-  simp only [List.cons_append] at hs ⊢
-  cases hsp : spanDigits (c :: (t ++ dec n)) with
-  | mk d1 r => rw [hsp] at hs; simp only at hs; subst hs; simp
+    itemToks (c :: t ++ dec n) = [c :: t ++ dec n] := by rw [itemToks, pr_nondigit c t n hc]
 
 /-- tokens of `dec a ++ pre-release text` -/
 theorem itemToks_last (a : Nat) (p : Option (PreL × Nat)) :
@@ -278,11 +285,14 @@ theorem versionSplit_public (v : Ver) (hr : v.release ≠ []) :
     simp only [List.mem_cons, not_or]
     exact ⟨by decide, tailItems_notin v 33 (by decide) (by decide) (by decide) i hi⟩
   rw [versionSplit_eq, public_shape]
+  simp only [List.append_assoc] at hrest
   by_cases he : v.epoch = 0
   · simp only [he, bne_self_eq_false, Bool.false_eq_true, if_false, List.nil_append]
+    have hsr := split_rest v.release hr v.pre (tailItems v) hti (flatMap_tailItems v)
+    simp only [List.append_assoc] at hsr ⊢
     rw [rpartition_none 33 _ hrest]
     simp only [List.isEmpty_nil, if_true]
-    rw [split_rest v.release hr v.pre (tailItems v) hti (flatMap_tailItems v)]
+    rw [hsr]
     simp [sufToks, tailItems, dec_zero, List.append_assoc]
   · have hne : (v.epoch != 0) = true := by simpa using he
     simp only [hne, if_true, List.append_assoc, List.singleton_append]
